@@ -189,7 +189,8 @@ impl Parser {
 
             if let Ok(num) = self.parse_string[start_index..idx].parse::<usize>() {
                 if let Ok(font_data) = general_purpose::STANDARD.decode(self.parse_string[idx + 1..].as_bytes()) {
-                    match BitFont::from_bytes(format!("custom font {num}"), &font_data) {
+                    // the sequence carries raw glyph data, never a font file
+                    match BitFont::from_raw_bytes(format!("custom font {num}"), &font_data) {
                         Ok(font) => {
                             log::info!("loaded custom font {num}", num = num);
                             buf.set_font(num, font);
